@@ -150,7 +150,7 @@ func workspaces() []pipe.Scenario {
 		}
 		for _, mode := range l.modes {
 			m := m
-			m.Work, m.WorkOnly = mode[0], mode[1] == "only"
+			m.Work, m.WorkOnly = pipe.WorkMode(mode[0]), mode[1] == "only"
 			for _, allFlag := range []bool{true, false} {
 				entries := [][]string{{"./app"}, {"./..."}, {"./internal/conf"}}
 				if !allFlag {
@@ -586,8 +586,8 @@ func tags(sc pipe.Scenario, obs *pipe.Observation, sum pipe.Summary) []string {
 		}
 	}
 	if sc.Module.Work != "" {
-		k := "workspace:go.work-in-" + sc.Module.Work
-		if sc.Module.WorkOnly {
+		k := "workspace:go.work-in-" + sc.Module.WorkPlace()
+		if sc.Module.WorkNoRequire() {
 			k += ",no-require-lines"
 		}
 		t = append(t, k, fmt.Sprintf("workspace:%d-members", 1+len(sc.Module.Ext)))
